@@ -4,7 +4,9 @@ import (
 	"encoding/binary"
 	"fmt"
 
+	of "github.com/contiv/libOpenflow/openflow13"
 	"vh/fw"
+
 	"vh/lib"
 	"vh/rec"
 	"vh/spec"
@@ -108,6 +110,9 @@ func c01Eval(c *fw.Ctx, data any) {
 	if !c01Late(c, kind, m) {
 		ok = false
 	}
+	if m.K == "mp_request" && !c01Retyped(c, kind, m) {
+		ok = false
+	}
 	if ok {
 		c.Count("framed_ok", 1)
 	}
@@ -162,6 +167,49 @@ func c01Late(c *fw.Ctx, kind string, m *rec.Rec) bool {
 	if l0 != len(bytes) || l1 != len(bytes) {
 		c.Violation(kind, "size", "late-growth-len", fmt.Sprintf("%d action(s) grew after being attached: Len() = %d before and %d after encoding, %d bytes produced", late, l0, l1, len(bytes)))
 		ok = false
+	}
+	return ok
+}
+
+// c01Retyped: a multipart request value whose Type is switched after it was built (one request value reused for
+// several polls) still carries whatever body is attached to it; header length, reported size and bytes must agree.
+func c01Retyped(c *fw.Ctx, kind string, m *rec.Rec) bool {
+	ok := true
+	for _, t := range []uint16{0, 1, 2, 3, 4, 5, 13} {
+		var bytes []byte
+		var l0, l1 int
+		var err, berr error
+		p, pv, st := fw.Recover(func() {
+			msg, e := lib.BuildMessage(m)
+			if e != nil {
+				berr = e
+				return
+			}
+			mp, isMP := msg.(*of.MultipartRequest)
+			if !isMP {
+				berr = fmt.Errorf("not a multipart request")
+				return
+			}
+			mp.Type = t
+			l0 = int(mp.Len())
+			bytes, err = mp.MarshalBinary()
+			l1 = int(mp.Len())
+		})
+		if berr != nil {
+			return ok
+		}
+		c.Count("retyped_requests", 1)
+		if p {
+			c.Violation(kind, "panic", "retyped:"+fw.LibFrame(st), fmt.Sprintf("type switched to %d: %s\n%s", t, pv, fw.TrimStack(st)))
+			return false
+		}
+		if err != nil {
+			continue
+		}
+		if len(bytes) < 8 || bytes[0] != 4 || bytes[1] != 18 || int(binary.BigEndian.Uint16(bytes[2:4])) != len(bytes) || l0 != len(bytes) || l1 != len(bytes) {
+			c.Violation(kind, "frame", "retyped-header-length", fmt.Sprintf("multipart request built for type %d and then switched to type %d: header %x, Len() %d before / %d after encoding, %d bytes produced", m.U("type"), t, bytes[:minInt(8, len(bytes))], l0, l1, len(bytes)))
+			ok = false
+		}
 	}
 	return ok
 }
